@@ -10,6 +10,8 @@
                         unsynced tail; a torn last record is dropped whole (journal CRC), so the
                         survivors are always a list of whole records  ([crash_ok] / [crash_drop])
       recover         : fold the surviving records with Batch.apply_log  ([recover])
+      reopen          : the constructor on an existing directory; goleveldb replays the journal into an
+                        fsync'ed table file + manifest, so afterwards every record is synced  ([reopen])
 
     The flush logic of leveldb.go (DB) and leveldbSerial.go + serialActions.go (SerialDB) is re-run over
     this disk as a MICRO-STEP machine: every operation yields the list of the states it goes through
@@ -106,11 +108,17 @@ Definition update_trace (s : cst) : list cst :=
 (** Close; then the constructor again on the same directory.
     DB.Close: `_ = putBatch(batch); sizeBatch = 0` (batch NOT reset); cancel; db.Close().
     SerialDB.doClose: `_ = putBatch()` (which resets on success); cancel; db.Close(). *)
+Definition sync_log (s : cst) : cst :=
+  {| c_kind := c_kind s; c_sync := c_sync s; c_batch := c_batch s; c_size := c_size s; c_max := c_max s;
+     c_log := ld_sync (c_log s); c_started := c_started s; c_completed := c_completed s |}.
+(** the constructor on an existing directory: a fresh object (empty batch, sizeBatch 0); goleveldb's
+    recovery replays the journal into a table file and a manifest, both fsync'ed, whatever the write option was *)
+Definition reopen (s : cst) : cst := sync_log (reset_batch s).
 Definition cycle_trace (s : cst) : list cst :=
   let s1 := write_start s in
   let s2 := write_done s1 in
   let closed := match c_kind s with KDb => with_size s2 0 | KSerial => reset_batch s2 end in
-  [s1; s2; closed; reset_batch closed].
+  [s1; s2; closed; reopen closed].
 
 (** the states an operation goes through, in order (never empty; the last one is the result) *)
 Definition op_trace (s : cst) (o : op2) : list cst :=
